@@ -379,3 +379,41 @@ def target_observers(modules, title):
                         ob.formula = ob.detail
         sess.check("cover", [], z3.BoolVal(n >= 5), 0, label=f"observer methods scanned: {n}")
     return (f"{modules[0]}:{title}", modules[0], "", run)
+
+
+PICKLE_HOOKS = ("__reduce__", "__reduce_ex__", "__getstate__", "__setstate__", "__getnewargs__", "__getnewargs_ex__")
+
+
+def target_default_pickling(modules, title="objects cross process boundaries by the default pickle protocol"):
+    """What a worker process receives (multi-process fits, Kramers-Kronig and DRT pools, `timeout`) and what it sends back is a
+    pickle of the circuit / data set / result.  The classes under contract define no pickling hook of their own and nothing is
+    registered with `copyreg`, so the copy is attribute for attribute -- bit-identical floats, same fixed flags, limits and labels --
+    and the single-process and multi-process paths see the same objects.  (A hook that, say, goes through the printed description
+    code rounds values to the printed precision.)  Decided on the class bodies, re-read on every run."""
+    def run(sess: Session):
+        n = 0
+        for module in modules:
+            try:
+                tree = core.module_ast(module)
+            except (FileNotFoundError, OSError) as ex:
+                sess.unsupported(str(ex))
+                continue
+            hooks = []
+            for cls in [c for c in ast.walk(tree) if isinstance(c, ast.ClassDef)]:
+                n += 1
+                for f in cls.body:
+                    if isinstance(f, (ast.FunctionDef, ast.AsyncFunctionDef)) and f.name in PICKLE_HOOKS:
+                        hooks.append(f"{cls.name}.{f.name} (L{f.lineno})")
+                    if isinstance(f, (ast.Assign, ast.AnnAssign)):
+                        for t in (f.targets if isinstance(f, ast.Assign) else [f.target]):
+                            if isinstance(t, ast.Name) and t.id in PICKLE_HOOKS:
+                                hooks.append(f"{cls.name}.{t.id} (L{f.lineno})")
+            uses_copyreg = [f"L{x.lineno}" for x in ast.walk(tree) if (isinstance(x, ast.Import) and any(a.name == "copyreg" for a in x.names)) or (isinstance(x, ast.ImportFrom) and x.module == "copyreg")]
+            ob = sess.check("frame", [], z3.BoolVal(not hooks and not uses_copyreg), 0, label=f"{module}: no class defines a pickling hook and nothing is registered with copyreg")
+            ob.soft = True          # a design rule: a hook that copies exactly would be harmless -- a violation needs the bounded layer's pickle round trip as witness
+            if hooks or uses_copyreg:
+                ob.detail = "; ".join(hooks + [f"copyreg used at {u}" for u in uses_copyreg])
+                ob.formula = ob.detail
+        sess.check("cover", [], z3.BoolVal(n >= 3), 0, label=f"classes examined: {n}")
+        sess.assumptions.append("pickle's default protocol copies instance attributes exactly (CPython)")
+    return (f"{modules[0]}:{title}", modules[0], "", run)
